@@ -287,16 +287,51 @@ def decode_raster(spec):
     return len(rows), len(rows[0]), bits, rows, True
 
 
-def check_raster(col, h, w, bits, rows, scales, tols, lines, queries, want_obs=False):
+def load_raster(array, via):
+    """via None: the ndarray constructor; 'png' / 'tiff': the image is written to a real file (losslessly, with OpenCV) and loaded
+    with RasterHeightMap.from_path."""
+    if via is None:
+        return RasterHeightMap(array)
+    import cv2, tempfile, shutil, os
+    d = tempfile.mkdtemp(prefix="gv-c19-")
+    try:
+        path = os.path.join(d, "map." + via)
+        if not cv2.imwrite(path, array):
+            raise RuntimeError("cv2.imwrite failed")
+        back = cv2.imread(path, cv2.IMREAD_UNCHANGED)
+        if back is None or back.dtype != array.dtype or not numpy.array_equal(back, array):
+            raise RuntimeError("the image file does not hold the intended pixels (harness)")
+        return RasterHeightMap.from_path(path)
+    finally:
+        shutil.rmtree(d, ignore_errors=True)
+
+
+def load_sparse(array, via):
+    if via is None:
+        return SparseHeightMap(array)
+    import tempfile, shutil, os
+    d = tempfile.mkdtemp(prefix="gv-c19-")
+    try:
+        path = os.path.join(d, "map." + via)
+        sep = "\t" if via == "tsv" else ","
+        with open(path, "w") as f:
+            for row in array:
+                f.write(sep.join(repr(float(v)) for v in row) + "\n")
+        return SparseHeightMap.from_path(path)
+    finally:
+        shutil.rmtree(d, ignore_errors=True)
+
+
+def check_raster(col, h, w, bits, rows, scales, tols, lines, queries, want_obs=False, via=None):
     vmax = 255.0 if bits == 8 else 65535.0          # documented normalisation: full white = height 1.0
     dtype = numpy.uint8 if bits == 8 else numpy.uint16
     image = [list(r) for r in rows]
 
     def rp(scale, tol=None, query=None, line=None):
-        return {"kind": "raster", "image": image, "dtype": "uint8" if bits == 8 else "uint16",
+        return {"kind": "raster", "image": image, "dtype": "uint8" if bits == 8 else "uint16", "via": via,
                 "scale": scale, "tolerance": tol, "query": query, "line": line}
 
-    m = RasterHeightMap(numpy.array(image, dtype=dtype))
+    m = load_raster(numpy.array(image, dtype=dtype), via)
     outcome = []
     obs = {}
     nontrivial = False
@@ -406,6 +441,35 @@ def _work_raster(batch):
         h, w, bits, rows, rich = decode_raster(spec)
         queries = [(x, y) for y in half_lattice(-1.5, h + 0.5) for x in half_lattice(-1.5, w + 0.5)]
         check_raster(col, h, w, bits, rows, SCALES, TOLS_FAMILY if rich else TOLS_BINARY, raster_lines(w, h, rich), queries)
+    return col.pack()
+
+
+def _work_files(batch):
+    """Maps loaded from real files through from_path (PNG/TIFF images, CSV/TSV point lists)."""
+    col = Collector()
+    for kind, spec, via in batch:
+        if kind == "raster":
+            h, w, bits, rows, rich = decode_raster(spec)
+            queries = [(x, y) for y in half_lattice(-1.5, h + 0.5) for x in half_lattice(-1.5, w + 0.5)]
+            try:
+                check_raster(col, h, w, bits, rows, SCALES, TOLS_BINARY, raster_lines(w, h, False)[:6], queries, via=via)
+            except Exception as e:                                   # noqa: BLE001
+                if "(harness)" in str(e) or "imwrite" in str(e):
+                    col.harness_error(f"file-backed raster {via}: {e!r}")
+                else:
+                    col.violation("raster:from_path-raised", f"{bits}-bit {h}x{w} image written as .{via}: from_path raised {e!r}",
+                                  {"kind": "raster", "image": [list(r) for r in rows], "dtype": "uint8" if bits == 8 else "uint16", "via": via,
+                                   "scale": 1.0, "tolerance": None, "query": None, "line": None})
+            col.count("file_backed_maps")
+        else:
+            if False not in _SPARSE_LINES:
+                _SPARSE_LINES[False] = sparse_lines(False)
+            try:
+                check_sparse(col, spec, SCALES, _SPARSE_LINES[False][:1], SPARSE_QUERIES, via=via)
+            except Exception as e:                                   # noqa: BLE001
+                col.violation("sparse:from_path-raised", f"points {spec} written as .{via}: from_path raised {e!r}",
+                              {"kind": "sparse", "points": [list(p) for p in spec], "via": via, "scale": 1.0, "tolerance": None, "query": None, "line": None})
+            col.count("file_backed_maps")
     return col.pack()
 
 
@@ -546,16 +610,16 @@ def aux_positions(line, tol):
     return _AUX[key]
 
 
-def check_sparse(col, pts3, scales, lines_by_tol, queries, want_obs=False):
+def check_sparse(col, pts3, scales, lines_by_tol, queries, want_obs=False, via=None):
     data = [list(map(float, p)) for p in pts3]
 
     def rp(scale, tol=None, query=None, line=None):
-        return {"kind": "sparse", "points": data, "scale": scale, "tolerance": tol, "query": query, "line": line}
+        return {"kind": "sparse", "points": data, "via": via, "scale": scale, "tolerance": tol, "query": query, "line": line}
 
     stored = {(int(round(2 * p[0])), int(round(2 * p[1]))): float(p[2]) for p in pts3}     # doubled coordinates: integers
     hull = convex_hull(list(stored))
     zmin, zmax = min(stored.values()), max(stored.values())
-    m = SparseHeightMap(numpy.array(data, dtype=float))
+    m = load_sparse(numpy.array(data, dtype=float), via)
     outcome, obs = [], {}
     nontrivial = zmin != zmax
     last_line, prev_scale, prev_tol = None, None, None
@@ -774,6 +838,10 @@ def run(tier, seed):
     packs = [total.pack()]
     packs += pmap(_work_raster, r_items, chunksize=1)
     packs += pmap(_work_sparse, s_items, chunksize=1)
+    step = 4 if tier == "quick" else 1
+    f_items = [("raster", spec, "png") for spec in family[::step]] + [("raster", spec, "tiff") for spec in family[1::2 * step]]
+    f_items += [("sparse", p, "csv") for p in sparse[::20 * step]] + [("sparse", p, "tsv") for p in sparse[7::40 * step]]
+    packs += pmap(_work_files, _batches(f_items, 8), chunksize=1)
 
     stats, outcomes = {}, set()
     for st, viols, harness, oc, _ in packs:
@@ -818,7 +886,8 @@ def run(tier, seed):
             "sample_path: lean set = 10 lines between 6 lattice end points (one degenerate, two crossing the hull from outside to outside) at tolerance 0.378, "
             "both scales, plus one 3-unit line at tolerance 0.05, scale 1; rich set = every ordered pair of 8 end points at 0.378 and 6 lines at 0.05, both "
             "scales; " + ("rich for the 4-point sets, lean for the 5- and 6-point sets" if tier == "thorough" else "lean for every set")
-            + ". FLAT: same queries, 64 lines. "
+            + ". FLAT: same queries, 64 lines. FILES: " + ("every" if tier == "thorough" else "every 4th") + " family image written losslessly as PNG (and every other one of those as TIFF), "
+            "point sets written as CSV/TSV, loaded with from_path and put through the same height queries and a reduced line set; "
             "after every set_scale / change of tolerance on a live map the line sampled last is sampled again and must carry the heights the map reports now; "
             "evaluations = get_depth_at queries + sample_path calls issued by the grid (re-evaluations for the oracle not counted). "
             "distinct_nontrivial = distinct (map, full outcome vector) digests over maps that are non-trivial: raster maps returning at least one non-zero "
@@ -856,7 +925,7 @@ def replay(body):
         queries = [tuple(float(v) for v in rp["query"])] if rp.get("query") else []
         tols = (rp["tolerance"],) if rp.get("tolerance") else ()
         scales = (rp["prev_scale"], rp["scale"]) if rp.get("prev_scale") else (rp["scale"],)
-        obs = check_raster(col, len(rows), len(rows[0]), bits, rows, scales, tols, lines, queries, True)
+        obs = check_raster(col, len(rows), len(rows[0]), bits, rows, scales, tols, lines, queries, True, via=rp.get("via"))
     else:
         pts3 = tuple(tuple(float(v) for v in p) for p in rp["points"])
         scales = (rp["prev_scale"], rp["scale"]) if rp.get("prev_scale") else (rp["scale"],)
@@ -865,6 +934,6 @@ def replay(body):
         if line and rp.get("prev_tol") is not None:
             lines = [(rp["prev_tol"], scales, line), (rp["tolerance"], scales, [])]
         queries = [tuple(float(v) for v in rp["query"])] if rp.get("query") else []
-        obs = check_sparse(col, pts3, scales, lines, queries, True)
+        obs = check_sparse(col, pts3, scales, lines, queries, True, via=rp.get("via"))
     _, viols, harness, _, _ = col.pack()
     return {"observed": obs, "violations": [[sig, msg] for sig, msg, _ in viols], "harness_errors": harness}
